@@ -192,14 +192,18 @@ def extra_checks(ctx, cases, impl_lines, model_lines):
     if res:
         return res
     # ... and logged through when appenders fail and the error handler itself logs (C03's re-entrant histories)
-    return xcheck.borrow(ctx, "C03", "a configuration logged through while appenders fail and the error handler logs",
-                         lambda c: len(c) == 5, n=150)
-
-
-def extra_checks(ctx, cases_, impl_lines, model_lines_):
-    """the same accept/keep decisions when the configuration arrives as a DOCUMENT (RawConfig -> ConfigBuilder): logger
-    and appender names are taken over character for character (my-svc is not my_svc), lossy loading keeps exactly
-    the valid items - C14's renderings and mutations in the three formats"""
-    from gen import xcheck
-    return xcheck.borrow(ctx, "C14", "names and items of a configuration document reach the builder unchanged",
-                         lambda c: True, n=150, seed_salt=17)
+    res = xcheck.borrow(ctx, "C03", "a configuration logged through while appenders fail and the error handler logs",
+                        lambda c: len(c) == 5, n=150)
+    if res:
+        return res
+    # the same accept/keep decisions when the configuration arrives as a DOCUMENT (RawConfig -> ConfigBuilder): logger
+    # and appender names are taken over character for character (my-svc is not my_svc), lossy loading keeps exactly
+    # the valid items - C14's renderings and mutations in the three formats
+    res = xcheck.borrow(ctx, "C14", "names and items of a configuration document reach the builder unchanged",
+                        lambda c: True, n=150, seed_salt=17)
+    if res:
+        return res
+    # "can be installed": installed through set_config over a running logger, also right after a reconfiguration
+    # whose outgoing component panicked in its Drop (C15's swap histories and drop probes)
+    return xcheck.borrow(ctx, "C15", "a built configuration installed over a running logger (set_config)",
+                         lambda c: c[0] in (0, 2), n=120, seed_salt=19)
